@@ -670,6 +670,9 @@ func c06ClassGraph(p *Prog, r *Report) {
 		changed = false
 		for caller, outs := range cg.Out {
 			for _, callee := range outs {
+				if cg.Async[caller][callee] {
+					continue // started as a goroutine: its locks are not nested in the caller's
+				}
 				for c := range may[callee] {
 					if may[caller] == nil {
 						may[caller] = map[string]bool{}
